@@ -7,6 +7,11 @@ V = Path(__file__).resolve().parent.parent
 TECH = "TLA+ specification model-checked with TLC, bound to the implementation by trace validation (TLC checks recorded implementation traces against the abstract spec) and replay of TLC-generated cases/behaviours"
 
 CLAIMS = {
+    "C15": {
+        "text": "TLC explores every interleaving of 2 producers x 2 lines, queue capacity 1 and 2, lossy and non-lossy, up to 2 injected write/flush faults, the guard dropped at any point, through the worker loop of worker.rs (blocking recv, try_recv drain, flush, error aborts the batch, Shutdown / rendez-vous / writer drop) and checks the abstract invariants (each attempt an offered line, at most once, in acceptance order; non-lossy never drops; everything accepted before the drop is attempted, a flush follows, the writer is released) plus liveness of the guard's drop under weak fairness. Binding: 400/4000 scenarios (capacity, lossy, 1-3 producers, gate pacing forcing full / empty queues, write and flush errors incl. the shutdown batch, short writes, guard dropped after quiescence / mid-stream / before later writes) run against the real non_blocking writer over a scripted underlying writer; TLC validates each totally ordered event log against the abstract invariants stated on events.",
+        "note": "The guard's real-time time-outs are assumed not to fire (the harness opens the gate before dropping the guard). Known finding F18 (lines racing with the guard's drop can be accepted and vanish) is reported as KNOWN-FINDING; lines offered after the drop returned are still judged. F7 was found with this model and fixed (7ba1ec8).",
+        "ref": "4 (C15)",
+    },
     "C07": {
         "text": "Abstract specification LayerStack (A): a stack in flat form (recording layers in callback order, each with its chain of per-layer filters; global filters; event vetoes) and a history of emissions; a layer receives an emission iff every global filter and every filter attached to it accepts the metadata in the current context (FilterExpr!Enabled, the filters' own decision, itself validated against the real filters in C08); span visibility, enter/exit/record/close routing, current-span / scope / parent lookups follow. TLC validates, operation by operation, the callbacks recorded from REAL stacks (built from the tree form: Filtered, and_then trees, Vec/Option/Box/reload wrappers, level/Targets/filter_fn/dynamic_filter_fn/and/or/not/Option filters, static, dynamic and mixed-interest global filters) under 50-operation histories incl. enabled! probes, vetoed events, flag flips, 1-2 threads, through the real macros and all process-global caches; 600 (quick) / 6000 (thorough) stack x history pairs, one process each.",
         "note": "Model checking here is trace validation of implementation runs against A (every operation's observation is a TLC state); there is no exhaustive mechanism model of the FILTERING bitmap yet (planned). The flat form (python flatten) is trusted as the meaning of the tree. Known findings F3 (stale filter bits after an unconsumed enabled pass) and F17 (hint of and_then trees with a None half) are reported as KNOWN-FINDING and their history / configuration class is not judged further.",
